@@ -452,9 +452,18 @@ async def _open_tunnel(tunnels: object, options: _Options,
                 port = ()
 
             last_conn = conn
-            conn = await connect(host, port, username=username,
-                                 passphrase=options.passphrase,
-                                 tunnel=conn or (), config=config)
+
+            try:
+                conn = await connect(host, port, username=username,
+                                     passphrase=options.passphrase,
+                                     tunnel=conn or (), config=config)
+            except (Exception, asyncio.CancelledError):
+                if last_conn:
+                    last_conn.close()
+                    await last_conn.wait_closed()
+
+                raise
+
             conn.set_tunnel(last_conn)
 
             if options.canonicalize_hostname != 'always':
